@@ -6,7 +6,7 @@ head with the invariant given in the sidecar contract; calls to contracted funct
 (see discharge.py).  The engine proves, it never refutes: an obligation that is not discharged is only "not proved".
 """
 import ast, itertools
-from z3 import (And, Or, Not, Implies, If, BoolVal, IntVal, RealVal, FreshConst, Const, ForAll, Exists, Select, Store, Int,
+from z3 import (And, Or, Not, Implies, If, BoolVal, IntVal, RealVal, Const, ForAll, Exists, Select, Store, Int,
                 IntSort, is_true, is_false, simplify, K, ToReal, is_int, is_real, Function, BoolSort, MultiPattern)
 from .types import *
 from .theory import seq_theory
@@ -14,6 +14,15 @@ from .theory import seq_theory
 
 class Unsupported(Exception):
     pass
+
+
+import z3 as _z3
+FRESH_LOG = []
+
+
+def FreshConst(sort, prefix='c'):
+    """fresh constant, logged so that constants created inside a comprehension body can be Skolemised over its index"""
+    c = _z3.FreshConst(sort, prefix); FRESH_LOG.append(c); return c
 
 
 # ----------------------------------------------------------------------------------------------- python values
@@ -61,7 +70,8 @@ class Outcome:
 
 class FunctionSpec:
     def __init__(self, qual, file, params, returns=None, requires=None, ensures=None, modifies=(), raises=None, loops=None,
-                 locals=None, decreases=None, generator=False, defaults=None, cls=None, ghost=None, pure=False, note=''):
+                 locals=None, decreases=None, generator=False, defaults=None, cls=None, ghost=None, pure=False, note='', name=None, constructs=None):
+        self.name = name or qual; self.constructs = constructs
         self.qual, self.file, self.params, self.returns = qual, file, params, returns
         self.requires = requires or (lambda o: BoolVal(True)); self.ensures = ensures or (lambda o, n, r: [])
         self.modifies = list(modifies); self.raises = raises or {}; self.loops = loops or {}; self.locals = locals or {}
@@ -182,7 +192,8 @@ class Engine:
     # ---------------------------------------------------------------------------------------- verify a function
     def verify(self, qual):
         spec = self.specs[qual]; fn = self.func_ast(spec)
-        self.spec, self.fname, self._names = spec, qual, {}
+        self.spec, self.fname, self._names = spec, spec.name, {}
+        self.pending_raises = []
         self.loop_ids = {id(n): k for k, n in enumerate(x for x in ast.walk(fn) if isinstance(x, (ast.For, ast.While)))}
         self.fn = fn
         st = State(); old = {}; self.param_roots = {}
@@ -292,6 +303,7 @@ class Engine:
         for s in stmts:
             if cur is None: break
             res = self.stmt(s, cur)
+            res = res + [Outcome(b, 'raise', exc=x) for b, x in self.pending_raises]; self.pending_raises = []
             falls = [o for o in res if o.kind == 'fall']; outs += [o for o in res if o.kind != 'fall']
             assert len(falls) <= 1
             cur = falls[0].st if falls else None
@@ -445,16 +457,48 @@ class Engine:
                 v = st.env[e.id]
                 if isinstance(v, PMaybe): v = v.val
                 for r in self.roots_in(v): roots.add(r)
+        PURE = {'items', 'keys', 'values', 'get', 'index', 'copy', 'count'}
+        BUILTIN = {'len', 'list', 'dict', 'set', 'any', 'all', 'max', 'min', 'sum', 'abs', 'isinstance', 'hasattr', 'print', 'warn', 'str', 'int', 'float',
+                   'range', 'enumerate', 'zip', 'sorted', 'tqdm', 'bool', 'next', 'tuple'}
+        def type_of_expr(e):
+            if isinstance(e, ast.Name) and e.id in st.env:
+                v = st.env[e.id]; v = v.val if isinstance(v, PMaybe) else v
+                return getattr(v, 't', None)
+            if isinstance(e, ast.Attribute):
+                t = type_of_expr(e.value)
+                if isinstance(t, TObj) and t.has_field(e.attr): return t.ftype(e.attr)
+            return None
         for n in body:
             for x in ast.walk(n):
                 if isinstance(x, ast.Call):
-                    if isinstance(x.func, ast.Attribute): root_of(x.func.value)
-                    for a in x.args: root_of(a)
-                    for kw in x.keywords: root_of(kw.value)
+                    spec = None
+                    if isinstance(x.func, ast.Attribute):
+                        rt = type_of_expr(x.func.value)
+                        if isinstance(rt, TObj): spec = self.specs.get(rt.name + '.' + x.func.attr)
+                        if x.func.attr in PURE and (spec is None): pass
+                        elif spec is not None and spec.params and spec.params[0][0] not in spec.modifies: pass
+                        else: root_of(x.func.value)
+                        pnames = [p for p, _ in spec.params[1:]] if spec is not None else None
+                    else:
+                        name = getattr(x.func, 'id', None)
+                        if name in BUILTIN: continue
+                        spec = self.specs.get(name) or self.resolve_function(name) if name else None
+                        pnames = [p for p, _ in spec.params] if spec is not None else None
+                    for i, a in enumerate(x.args):
+                        if spec is not None and pnames is not None and i < len(pnames) and pnames[i] not in spec.modifies: continue
+                        root_of(a)
+                    for kw in x.keywords:
+                        if spec is not None and kw.arg not in spec.modifies: continue
+                        root_of(kw.value)
                 if isinstance(x, (ast.Subscript, ast.Attribute)) and isinstance(x.ctx, ast.Store): root_of(x.value)
                 if isinstance(x, ast.AugAssign): root_of(x.target)
                 if isinstance(x, ast.Yield) and st.yields is not None: roots.add(st.yields.root)
         return roots
+
+    def resolve_function(self, name):
+        for q, s in self.specs.items():
+            if q == name or q.endswith('.' + name) and s.cls is None: return s
+        return None
 
     def roots_in(self, v):
         if isinstance(v, PRef): return [v.root]
